@@ -16,9 +16,15 @@ package safelog
 //   - only the output of Scrub reaches the sink,
 //   - the bytes after the last newline stay pending, in storage the caller cannot reach.
 //@ default model int
+// Scrub applies every pattern twice: a match consumes the delimiter that follows the address, which hides an address
+// that begins right after it from the same pass (what the passes match is outside the verified code; the bounded
+// grammar driver drivers/safelog_scrub_grammar_test.go stands in for that).
 //@ func Scrub(b []byte) (r []byte)
 //@   props C07
 //@   flag nosafety
+//@   loop 1 invariant {two-passes-per-pattern} calls(ReplaceAllFunc) == 2 * (rangeindex#1 + 1) && rangeindex#1 + 1 <= len(scrubberPatterns)
+//@   loop 2 invariant 0 <= i && i <= 2 && calls(ReplaceAllFunc) == 2 * rangeindex#1 + i
+//@   ensures {two-passes-per-pattern} calls(ReplaceAllFunc) == 2 * len(scrubberPatterns)
 //
 //@ ghost var scrubbedBase ref
 //@ ghost var pendBase ref
